@@ -353,6 +353,38 @@ theorem full_file_reads_back (hdr : List Nat) (s : List Int) (hh : hdr.length = 
   intro j hj
   rw [getD_map_range _ _ _ hj, ← hh, sampleAt_body, C14L.be32_roundtrip _ (hs j hj).1 (hs j hj).2]
 
+/-- Zygo, end to end over the model (header + bytes + flips together): for every shape and every map whose counts fit
+`int32`, reading the written file returns every integer sample in its own place, with no warning -/
+theorem zygo_model_roundtrip (a : WArgs) (vals : List Float) (hl : vals.length = a.h * a.w)
+    (hr : ∀ v ∈ vals, -2147483648 ≤ zygoCountF a.wvl v ∧ zygoCountF a.wvl v < 2147483648) :
+    ∃ r, readCounts (zygoFile Generated.C14.zygoTable Generated.C14.zygoWriterSets a vals) (a.h * a.w) = some r ∧
+      permute 0 r (flipIdx Generated.C14.zygoReadFlip a.h a.w) = vals.map (zygoCountF a.wvl) ∧
+      readWarns (zygoFile Generated.C14.zygoTable Generated.C14.zygoWriterSets a vals) (a.h * a.w) = false := by
+  have hc : (vals.map (zygoCountF a.wvl)).length = a.h * a.w := by simp [hl]
+  generalize hcs : vals.map (zygoCountF a.wvl) = counts at hc
+  have hrange : ∀ c ∈ counts, -2147483648 ≤ c ∧ c < 2147483648 := by
+    intro c hcm; rw [← hcs] at hcm
+    obtain ⟨v, hv, rfl⟩ := List.mem_map.1 hcm
+    exact hr v hv
+  have hsl : (permute 0 counts (flipIdx Model.C14.zygoWriteFlip a.h a.w)).length = a.h * a.w := by
+    rw [length_permute, hc]
+  have hfull := full_file_reads_back (headerBytes Generated.C14.zygoTable Generated.C14.zygoWriterSets a)
+    (permute 0 counts (flipIdx Model.C14.zygoWriteFlip a.h a.w)) (length_headerBytes _ _ a) (by
+      intro j hj
+      rcases getD_mem_or_zero counts (flipIdx Model.C14.zygoWriteFlip a.h a.w j) with h | h
+      · rw [permute_getD _ _ _ (by rw [length_permute] at hj; exact hj)]; exact hrange _ h
+      · rw [permute_getD _ _ _ (by rw [length_permute] at hj; exact hj), h]; decide)
+  rw [hsl] at hfull
+  obtain ⟨r, h1, h2, h3, h4⟩ := hfull
+  refine ⟨r, by simpa only [zygoFile, hcs] using h1, ?_, by simpa only [zygoFile, hcs] using h4⟩
+  have hrs : r = permute 0 counts (flipIdx Model.C14.zygoWriteFlip a.h a.w) :=
+    eq_of_getD _ _ (by rw [h2, hsl]) (fun i hi => h3 i (by rw [h2] at hi; exact hi))
+  rw [hrs, (gen_flips).2.1]
+  apply permute_permute
+  · intro i hi; rw [hc] at hi ⊢; exact flipIdx_lt _ _ _ _ hi
+  · intro i hi; rw [hc] at hi
+    exact (orientation_iff _ _).2 (by decide) a.h a.w i hi
+
 /-- Interferogram save/load: the unit conversions around the file layer are exact inverses (mm→m→mm, µm→m→µm) -/
 theorem ifg_units_roundtrip (dx wvl : ℚ) :
     ifgDxRead (zygoDxWrite dx) = dx ∧ ifgWvlRead (zygoWvlWrite wvl) = wvl ∧ ifgSavePassesDataDxWavelength = true := by
